@@ -454,8 +454,8 @@ func propC14(r *Run, w *World) {
 			for _, st := range storesOf(fn) {
 				t := AddrTerm(st.Addr)
 				if strings.HasPrefix(t, "p0.") {
-					fields[strings.TrimPrefix(t, "p0.")] = Term(st.Val)
-					if strings.HasPrefix(Term(st.Val), "m[") && !HoldsAt(st.Block(), want) {
+					fields[strings.TrimPrefix(t, "p0.")] = TermAt(st.Val, st.Block())
+					if strings.HasPrefix(TermAt(st.Val, st.Block()), "m[") && !HoldsAt(st.Block(), want) {
 						okGuard = false
 					}
 				}
@@ -809,7 +809,11 @@ func propC14(r *Run, w *World) {
 		}
 		sort.Strings(ks)
 		for _, k := range ks {
-			r.Check(got[k] == want[k], "Parse copies "+k, parse.Pos(), "← "+want[k], fmt.Sprintf("%s is filled from %q; want %q: a parsed flag does not reach the rule", k, got[k], want[k]))
+			// several sources (one per branch) are compared as a set
+			gs, ws := strings.Split(got[k], "|"), strings.Split(want[k], "|")
+			sort.Strings(gs)
+			sort.Strings(ws)
+			r.Check(strings.Join(gs, "|") == strings.Join(ws, "|"), "Parse copies "+k, parse.Pos(), "← "+want[k], fmt.Sprintf("%s is filled from %q; want %q: a parsed flag does not reach the rule", k, got[k], want[k]))
 		}
 		// List/Action: Append under Type == Append, Prepend under Type == Prepend
 		for _, st := range storesOf(parse) {
